@@ -24,6 +24,49 @@ def identity_fails(rig):
     return None
 
 
+def sparse_stream_fails(dynamic, seed, T, strategy):
+    """river-style sparse dicts: besides the explained features every observation MAY carry an optional input the model reads with
+    `.get(key, 0)`; stored rows are sparse in the same way. Exact arithmetic; after every call the values sum to the explained loss."""
+    import random as pyrandom
+    import warnings
+    from harness import rng as hrng
+    from ixai.explainer import IncrementalSage
+    from ixai.storage import GeometricReservoirStorage
+    from ixai.imputer import MarginalImputer
+    r = pyrandom.Random(seed)
+    names = ["a", 1, "c"]
+    coef = {f: Q(r.randint(-3, 3) or 2) for f in names}
+
+    def model(z):
+        return {"output": sum((coef[f] * z[f] for f in names), Q(1, 2)) + 5 * z.get("w", Q(0)) + z[names[0]] * z.get("v", Q(1))}
+
+    def loss(y, p):
+        return (p["output"] - y) * (p["output"] - y)
+    with warnings.catch_warnings():
+        warnings.simplefilter("ignore")
+        dr = hrng.Scripted(pyrandom.Random(seed + 1), real_fn=lambda g: g.random())
+        with dr.installed():
+            st = GeometricReservoirStorage(size=3, store_targets=False, constant_probability=1.0)
+            kw = dict(dynamic_setting=True, smoothing_alpha=Q(1, 3)) if dynamic else dict(dynamic_setting=False)
+            ex = IncrementalSage(model, loss, list(names), storage=st, imputer=MarginalImputer(model, strategy, st),
+                                 n_inner_samples=r.randint(1, 2), **kw)
+            for t in range(T):
+                x = {f: Q(r.randint(-4, 4), r.randint(1, 3)) for f in names}
+                for opt in ("w", "v"):
+                    if r.random() < 0.6:
+                        x[opt] = Q(r.randint(-3, 3), 2)
+                y = Q(r.randint(-3, 3), 2)
+                try:
+                    ex.explain_one(x, y)
+                except Exception as exn:
+                    return f"call {t + 1} on the sparse observation {x} raised {core.err_kind(exn)}: {exn}"
+                total = sum(ex.importance_values.values(), Q(0))
+                if total != ex.explained_loss:
+                    return (f"after call {t + 1} (observation {x}; optional inputs 'w', 'v' present in some observations only) the values sum to "
+                            f"{rs(total)} but the explained loss is {rs(ex.explained_loss)}")
+    return None
+
+
 def wrapped_learning_model_fails(kind, dynamic, seed, T):
     """IncrementalSage with a library wrapper as model function around an online learner that is trained after every explained
     observation; discrete features, so observations repeat (also consecutively). After every call the values must sum to the
@@ -183,6 +226,20 @@ def run(tier="quick", seed=0, replay=None):
         if f:
             chk.violation("efficiency-wrapped-model", f"IncrementalSage on a {wk} wrapper around a model trained between the calls "
                           f"(dynamic={dyn}, seed {sd}): {f}", {"wrapped_learning_model": wk, "dynamic": dyn, "seed": sd})
+            break
+    # sparse observations (optional inputs present in some observations only), exact arithmetic
+    for si in range(chk.count(8, 60)):
+        dyn, strat = si % 2 == 0, ["joint", "product"][(si // 2) % 2]
+        sd = chk.rng.randrange(10 ** 6)
+        dsc = {"sparse_stream": True, "dynamic": dyn, "strategy": strat, "seed": sd}
+        chk.case(dsc, nontrivial=True, sample=(si == 0))
+        chk.stat("sparse_stream_runs")
+        try:
+            f = sparse_stream_fails(dyn, sd, 8, strat)
+        except Exception as ex:
+            f = f"raised {core.err_kind(ex)}: {ex}"
+        if f:
+            chk.violation("efficiency-sparse", f"IncrementalSage (dynamic={dyn}, {strat} imputer, seed {sd}): {f}", dsc)
             break
     _expl.long_stream_probe(chk, "sage", ["ixai/explainer/sage/incremental.py", "ixai/explainer/base.py", "ixai/utils/tracker/multi_value.py"],
                             "IncrementalSage", identity=identity_fails)
